@@ -8,7 +8,13 @@ for k in $(ls "$src/out" | sort); do
   [ -f "$src/out/$k/patch.diff" ] || continue
   d=seeded/$id-$k; mkdir -p $d; cp "$src/out/$k/"* $d/ 2>/dev/null
   [ -f $d/meta.json ] || echo "{\"property\":\"$id\"}" > $d/meta.json
-  if ls $d/demo*_test.go >/dev/null 2>&1; then tools/seedconfirm.sh $d "$dest" "$pkgs" > $d/confirm.log 2>&1; else echo "demo is not a go test; confirm by hand" > $d/confirm.log; fi
+  if ls $d/demo*_test.go >/dev/null 2>&1; then
+    dd=$dest
+    if [ "$dd" = auto ]; then
+      pk=$(grep -m1 '^package ' $d/demo*_test.go | awk '{print $2}' | sed 's/_test$//')
+      case $pk in main) dd=cmd/shfmt;; typedjson) dd=syntax/typedjson;; *) dd=$pk;; esac
+    fi
+    tools/seedconfirm.sh $d "$dd" "$pkgs" > $d/confirm.log 2>&1;   else echo "demo is not a go test; confirm by hand" > $d/confirm.log; fi
   tools/seedtest.sh $d $id $extra > $d/detect.log 2>&1; rc=$?
   echo "== $d caught=$([ $rc = 0 ] && echo yes || echo NO)"; grep -E "demo W|^ok|^FAIL|does not" $d/confirm.log | tr '\n' ' ' | cut -c1-300; echo; grep -E "^(VIOLATION|C[0-9]+ (ok|FAIL)|PATCH)" $d/detect.log | cut -c1-200
 done
